@@ -570,7 +570,7 @@ class BlockProgram:
             self.blocks[name] = (stmts, test, targets)
 
     def run(self, x, y, n, c, env, max_steps=400):
-        ns = {"x": x, "y": y, "n": n, "c": c, "ext": env.ext, "mark": env.mark}
+        ns = {"x": x, "y": y, "n": n, "c": c, "v": 0, "ext": env.ext, "mark": env.mark}
         name = self.entry
         for _ in range(max_steps):
             stmts, test, targets = self.blocks[name]
